@@ -256,3 +256,24 @@ def MA(inp):
             req = real_pickle.loads(seen[0][0])
             cl['command_names_the_node'] = req[0] == ('add' if op == 0 else 'rem') and req[1] == target
     return Res(cl, nontrivial=True, obs=lambda: dict(op=op, target=target, dyn=dyn, exc=show(exc), calls=show(rec.calls)))
+
+
+@obligation('M1b', props=('C10',), quick=[dict(n=2)], thorough=[dict(n=2), dict(n=3)], stubs=_STUBS,
+            bounds='candidate of a 3-node cluster one vote short of the majority, log n<=3, any applied/commit index; wins the election, then a membership request is dispatched before anything of the new term is committed')
+def M1b(inp, n):
+    """no-op gate end to end: a node that has just won an election refuses a membership change (REQUEST_DENIED, log and member
+    set untouched) until it has applied the no-op of its own term - composition of the real become-leader step and the real dispatch."""
+    members = ('b', 'c')
+    o, tr, now = _mk(inp, members)
+    p = so.sym_state(inp, o, now, n, role=C, term_hi=T_HI, base_hi=2, connected=())
+    put(o, 'votesCount', 1)
+    _, exc = guard(getattr(o, so.P + 'onMessageReceived'), Node('b'), {'type': 'response_vote', 'term': p.term})
+    won = o._isLeader()
+    rec = Rec('cb')
+    pre_log = so.log_of(o)
+    _, exc1 = guard(o._applyCommand, mcmd('add', 'd'), rec)
+    _, exc2 = guard(o._checkCommandsToApply)
+    cl = {'no_exception': exc is None and exc1 is None and exc2 is None, 'wins': won}
+    cl['change_refused_before_own_noop_is_applied'] = rec.calls == [(None, FAIL_REASON.REQUEST_DENIED)]
+    cl['log_and_members_untouched'] = len(so.log_of(o)) == len(pre_log) and set(x.id for x in o.otherNodes) == set(members)
+    return Res(cl, nontrivial=won, obs=lambda: dict(won=won, calls=show(rec.calls), noop=show(get(o, 'noopIDx')), applied=show(o.raftLastApplied)))
